@@ -611,13 +611,14 @@ fn setup(init: &Value, nthreads: usize) -> Setup {
             let piece = len / nthreads.max(1);
             let mut first_b: Option<Bytes> = None;
             let mut first_exp: Vec<u8> = Vec::new();
+            let mut first_addr = base;
             for (t, w) in workers.iter_mut().enumerate() {
                 let k = kinds.get(t).map(|s| s.as_str()).unwrap_or("M");
                 if k == "C" {
                     if let Some(fb) = first_b.as_ref() {
                         let c = fb.clone();
                         la::set_window(0);
-                        w.own.push(Slot { h: Some(H::B(c)), exp: first_exp.clone(), addr: base, gid: gid() });
+                        w.own.push(Slot { h: Some(H::B(c)), exp: first_exp.clone(), addr: first_addr, gid: gid() });
                         la::set_window(1);
                     }
                     continue;
@@ -630,6 +631,7 @@ fn setup(init: &Value, nthreads: usize) -> Setup {
                     if first_b.is_none() {
                         first_b = Some(fb.clone());
                         first_exp = exp.clone();
+                        first_addr = addr;
                     }
                     H::B(fb)
                 } else {
@@ -716,6 +718,11 @@ fn run_once(p: &Value, prefix: &[usize], controlled: bool, out: &mut String, pid
                 // std's Arc is not instrumented: its strong count is logged as one AcqRel
                 // read-modify-write per released reference (Release decrement + Acquire fence)
                 yield_point();
+                // (free-running mode: the logged event and the real decrement must be one step,
+                // or the log order of two threads' events can differ from the order of their
+                // decrements and the monitor sees a race that is not there)
+                static ARC_LOCK: Mutex<()> = Mutex::new(());
+                let _g = ARC_LOCK.lock().unwrap();
                 let mut e = LogEv::new("atomic", tnum());
                 e.loc = 2_000_000;
                 e.op = "fetch_sub";
@@ -725,6 +732,7 @@ fn run_once(p: &Value, prefix: &[usize], controlled: bool, out: &mut String, pid
                 e.note = "harness_arc";
                 push(e);
                 w.shared = None;
+                drop(_g);
             }
             drain_ledger();
             if CONTROLLED.load(Ordering::SeqCst) {
